@@ -15,6 +15,13 @@ Definition ojcmp (a b : option json) : comparison :=      (* Option<JsonValue>::
 Definition usize_of (v : option json) : option N :=        (* TryInto::<usize> of a Number *)
   match v with Some (JNum (NPos n)) => Some n | _ => None end.
 
+(* list indexing by an N without building a unary number *)
+Fixpoint nth_N {A} (l : list A) (i : N) : option A :=
+  match l with
+  | [] => None
+  | x :: t => if i =? 0 then Some x else nth_N t (i - 1)
+  end.
+
 Definition arg (vals : list (option json)) (i : nat) : option json :=
   match nth_error vals i with Some v => v | None => None end.
 
